@@ -95,6 +95,7 @@ fn check(c: &Case, st: &mut Stats) -> Result<(), String> {
     let mut a = Decoder::new(cfg); // one-shot interface, decoder under test
     let mut a_orig: Option<Decoder> = None; // original kept after a Clone op
     let mut b = Decoder::new(cfg); // incremental interface
+    let mut m = Decoder::new(cfg); // both interfaces, alternating
     let mut blocks: Vec<SourceBlockDecoder> = (0..z).map(|zi| SourceBlockDecoder::new(zi as u8, &cfg, pool.ks[zi] as u64 * t as u64)).collect();
     let mut block_answer: Vec<Option<Vec<u8>>> = vec![None; z];
     let mut buffers: Vec<Vec<EncodingPacket>> = vec![vec![]; z];
@@ -156,9 +157,20 @@ fn check(c: &Case, st: &mut Stats) -> Result<(), String> {
                 }
                 // (A) one-shot interface
                 let ra = a.decode(pkt.clone());
+                // (3') a decoder on which both interfaces are mixed agrees as well
+                let via_decode = (*raw as u32 + step as u32) % 2 == 0;
+                let rm = if via_decode {
+                    m.decode(pkt.clone())
+                } else {
+                    m.add_new_packet(pkt.clone());
+                    m.get_result()
+                };
                 // (3) incremental interface agrees with the one-shot interface
                 b.add_new_packet(pkt.clone());
                 let rb = b.get_result();
+                if ra != rm {
+                    return Err(format!("step {step}: decode() gives {} but a decoder fed through decode() and add_new_packet() alternately gives {} (this step via {})", desc(&ra), desc(&rm), if via_decode { "decode" } else { "get_result" }));
+                }
                 if ra != rb {
                     return Err(format!("step {step}: decode() gives {} but add_new_packet()+get_result() gives {}", desc(&ra), desc(&rb)));
                 }
@@ -319,7 +331,7 @@ fn signature(_: &Case, msg: &str) -> String {
 }
 
 pub fn run(ctx: &Ctx, rep: &mut Report) {
-    rep.rule = "stateful: generated object (Z <= 3 blocks of K <= 40, or in one case of nine 4..24 blocks of K <= 4; several (Al,T,N)) with a packet pool (all source packets + K/2+6 repair packets per block with near/uniform/far ESIs) and a generated history of up to 420 operations: Deliver(any pool index: duplicates and re-delivery after completion occur), Flush (per-block batches through SourceBlockDecoder::decode(iter)), Clone (continue on the clone, keep the original running on the same suffix), Checkpoint. Invariants after every step: decode() == add_new_packet()+get_result(); clone == original and both give identical answers afterwards; once Some(x), always Some(x); at checkpoints and at the end the answer equals that of a fresh decoder fed the distinct packets in ascending (SBN, ESI) order one per call; batched per-block delivery == one-per-call delivery of the same set. Non-trivial = history with a duplicate source packet before completion, a delivery after completion and a block completed by the solver; distinct by (object, op sequence).".into();
+    rep.rule = "stateful: generated object (Z <= 3 blocks of K <= 40, or in one case of nine 4..24 blocks of K <= 4; several (Al,T,N)) with a packet pool (all source packets + K/2+6 repair packets per block with near/uniform/far ESIs) and a generated history of up to 420 operations: Deliver(any pool index: duplicates and re-delivery after completion occur), Flush (per-block batches through SourceBlockDecoder::decode(iter)), Clone (continue on the clone, keep the original running on the same suffix), Checkpoint. Invariants after every step: decode() == add_new_packet()+get_result() == a decoder on which both interfaces alternate; clone == original and both give identical answers afterwards; once Some(x), always Some(x); at checkpoints and at the end the answer equals that of a fresh decoder fed the distinct packets in ascending (SBN, ESI) order one per call; batched per-block delivery == one-per-call delivery of the same set. Non-trivial = history with a duplicate source packet before completion, a delivery after completion and a block completed by the solver; distinct by (object, op sequence).".into();
     let n = ctx.tier.pick(80_000u64, 800_000);
     rep.absorb("history", run_sharded("C08", "history", ctx.seed, n, 32, strategy, check, to_json, signature));
 }
